@@ -673,6 +673,21 @@ pub fn inputs_c17(r: &mut Rng, n: usize, _tier: &str, out: &mut dyn Write) {
 
 pub fn inputs_c12(r: &mut Rng, n: usize, _tier: &str, out: &mut dyn Write) {
     for k in 0..n {
+        if k % 40 == 39 {
+            // construct-then-compare: an operand built from RAW parts (nanosecond field of up to 5.8 centuries)
+            // against the same instant, a neighbour or another instant given canonically in any of the seven scales
+            let c = r.range_i64(-50, 50) as i128;
+            let ns = match r.below(3) {
+                0 => (r.below(NPC as u64)) as i128,
+                1 => (1 + r.below(5) as i128) * NPC + r.below(3) as i128,
+                _ => (r.next() as i128).min(5 * NPC + NPC / 2),
+            };
+            let inst = c * NPC + ns;
+            let b = *r.pick(&NONDYN);
+            let other = inst - ref_off(b) + match r.below(4) { 0 => 0, 1 => r.range_i64(-2, 2) as i128, 2 => small_off(r), _ => (r.range_i64(-36525, 36525) as i128) * DAY };
+            writeln!(out, "ecmp_parts {} {} {}:{}", c, ns, dstr(other), b).unwrap();
+            continue;
+        }
         if k % 8 == 7 {
             // ET/TDB operands: the statement holds for instants more than 100 ns apart.  One operand in ET or
             // TDB, the other in any of the nine scales; the second operand is placed with the library's own
@@ -1469,6 +1484,12 @@ pub fn exec(op: &str, a: &[&str]) -> Option<String> {
             let mut v = vec![s2e(a[0]), s2e(a[1]), s2e(a[2])];
             v.sort();
             Some(format!("ok {} {} {}", e2s(v[0]), e2s(v[1]), e2s(v[2])))
+        }
+        "ecmp_parts" => {
+            // an epoch built from raw TAI parts against another one: (cmp, eq, reverse cmp, reverse eq)
+            let x = Epoch::from_tai_parts(a[0].parse().unwrap(), a[1].parse().unwrap());
+            let y = s2e(a[2]);
+            Some(format!("ok {} {} {} {}", ord2s(x.cmp(&y)), b2s(x == y), ord2s(y.cmp(&x)), b2s(y == x)))
         }
         "ecmp_dyn" => {
             // (cmp, eq, reverse cmp, reverse eq, <, >)
